@@ -51,6 +51,7 @@ Proof.
   rops. unfold radial_smax.
   replace ((n * 1 - Z.abs m * 1) * 1 + 1 * 2)%Z with (n - Z.abs m + 2)%Z by ring.
   apply fold_left_ext_in. intros a k _.
+  rewrite (Qeq_eqR _ _ (Qred_correct _)).
   rewrite Q2R_frac by (pose proof (radial_den_pos n m k); lia).
   unfold radial_num, radial_den, factZ.
   replace ((n * 1 + m * 1) * 1 - k * 2)%Z with (n + m - k * 2)%Z by ring.
@@ -95,11 +96,13 @@ Qed.
     sum_{i,j} c_i c'_j / (e_i + e'_j + 2)  (= int_0^1 R_n^m R_n'^m r dr termwise)  = [n = n'] / (2n + 2) *)
 Definition radial_expected (n n' : Z) : Q := if (n =? n')%Z then (1 / inject_Z (2 * n + 2))%Q else 0%Q.
 Definition same_abs_m (p q : Z * Z) : bool := (Z.abs (snd p) =? Z.abs (snd q))%Z.
+Definition table (l : list (Z * Z)) := map (fun p => (p, radial_coefs (fst p) (snd p))) l.
 Definition ortho_ok (l : list (Z * Z)) : bool :=
-  forallb (fun p => forallb (fun q =>
-    negb (same_abs_m p q) ||
-    Qeq_bool (inner_Q (radial_coefs (fst p) (snd p)) (radial_coefs (fst q) (snd q)))
-             (radial_expected (fst p) (fst q))) l) l.
+  let t := table l in
+  forallb (fun pc => forallb (fun qc =>
+    if same_abs_m (fst pc) (fst qc)
+    then Qeq_bool (inner_Q (snd pc) (snd qc)) (radial_expected (fst (fst pc)) (fst (fst qc)))
+    else true) t) t.
 
 Lemma ortho_std : ortho_ok std_indices = true.  Proof. vm_compute. reflexivity. Qed.
 Lemma ortho_noll : ortho_ok noll_indices = true.  Proof. vm_compute. reflexivity. Qed.
@@ -111,35 +114,55 @@ Theorem radial_orthogonal l : l = std_indices \/ l = noll_indices \/ l = fringe_
 Proof.
   intros Hl n m n' m' Hp Hq Hm.
   assert (T : ortho_ok l = true) by (destruct Hl as [->|[->| ->]]; [apply ortho_std|apply ortho_noll|apply ortho_fringe]).
-  unfold ortho_ok in T. rewrite forallb_forall in T. specialize (T _ Hp). rewrite forallb_forall in T.
-  specialize (T _ Hq). unfold same_abs_m in T. cbn [fst snd] in T.
-  apply Z.eqb_eq in Hm. rewrite Hm in T. cbn [negb orb] in T. apply Qeq_bool_eq in T. exact T.
+  unfold ortho_ok in T. cbv zeta in T. rewrite forallb_forall in T.
+  specialize (T ((n, m), radial_coefs n m)). rewrite forallb_forall in T.
+  specialize (T (in_map (fun p => (p, radial_coefs (fst p) (snd p))) _ _ Hp) ((n', m'), radial_coefs n' m')
+                (in_map (fun p => (p, radial_coefs (fst p) (snd p))) _ _ Hq)).
+  unfold same_abs_m in T. cbn [fst snd] in T.
+  apply Z.eqb_eq in Hm. rewrite Hm in T. apply Qeq_bool_eq in T. exact T.
 Qed.
 
 (** ** orthonormality of the Standard and Noll families, given the azimuthal integrals
     (1/pi) int_0^{2pi} az_m az_m' = [m = m'] (1 + [m = 0])  (proved over the reals in L_C10_azimuthal):
-    norm^2(n,m) * radial inner * azimuthal factor = [(n,m) = (n',m')] *)
-Definition az_factor (m m' : Z) : Q := if (m =? m')%Z then (if (m =? 0)%Z then 2 else 1)%Q else 0%Q.
+    the Gram entry  N(n,m) N(n',m') * radial inner * azimuthal factor  is  [(n,m) = (n',m')].
+    (N N' is only needed where the other factors are non-zero, i.e. for (n,m) = (n',m'), where it is
+    norm^2; elsewhere the product is 0 whatever N N' is.) *)
 Definition gram (norm2 : Z -> Z -> Q) (p q : Z * Z) : Q :=
-  (* N N' = sqrt(norm2 norm2'); only evaluated where az_factor <> 0, i.e. m = m', then N N' enters as
-     sqrt(norm2(n,m) norm2(n',m)); for n = n' this is norm2, for n <> n' the radial factor is 0 *)
-  (norm2 (fst p) (snd p) * inner_Q (radial_coefs (fst p) (snd p)) (radial_coefs (fst q) (snd q))
-   * az_factor (snd p) (snd q))%Q.
+  if (snd p =? snd q)%Z
+  then (norm2 (fst p) (snd p) * inner_Q (radial_coefs (fst p) (snd p)) (radial_coefs (fst q) (snd q))
+        * (if (snd p =? 0)%Z then 2 else 1))%Q
+  else 0%Q.
 Definition delta (p q : Z * Z) : Q := if ((fst p =? fst q) && (snd p =? snd q))%Z then 1%Q else 0%Q.
-Definition gram_ok norm2 l := forallb (fun p => forallb (fun q => Qeq_bool (gram norm2 p q) (delta p q)) l) l.
+Definition gram_arith_ok (norm2 : Z -> Z -> Q) l :=
+  forallb (fun p => forallb (fun q =>
+    if (snd p =? snd q)%Z
+    then Qeq_bool (norm2 (fst p) (snd p) * radial_expected (fst p) (fst q) * (if (snd p =? 0)%Z then 2 else 1)) (delta p q)
+    else true) l) l.
 
-Lemma gram_std : gram_ok norm2_std std_indices = true.  Proof. vm_compute. reflexivity. Qed.
-Lemma gram_noll : gram_ok norm2_noll noll_indices = true.  Proof. vm_compute. reflexivity. Qed.
+Lemma gram_std : gram_arith_ok norm2_std std_indices = true.  Proof. vm_compute. reflexivity. Qed.
+Lemma gram_noll : gram_arith_ok norm2_noll noll_indices = true.  Proof. vm_compute. reflexivity. Qed.
+
+Lemma gram_delta norm2 l : l = std_indices \/ l = noll_indices \/ l = fringe_indices ->
+  gram_arith_ok norm2 l = true ->
+  forall p q, In p l -> In q l -> (gram norm2 p q == delta p q)%Q.
+Proof.
+  intros Hl T [n m] [n' m'] Hp Hq. unfold gram, delta. cbn [fst snd].
+  destruct (m =? m')%Z eqn:E.
+  - apply Z.eqb_eq in E. subst m'.
+    rewrite (radial_orthogonal l Hl n m n' m Hp Hq eq_refl).
+    unfold gram_arith_ok in T. rewrite forallb_forall in T. specialize (T _ Hp). rewrite forallb_forall in T.
+    specialize (T _ Hq). cbn [fst snd] in T. rewrite Z.eqb_refl in T. apply Qeq_bool_eq in T.
+    unfold delta in T. cbn [fst snd] in T. rewrite Z.eqb_refl in T. exact T.
+  - rewrite andb_false_r. reflexivity.
+Qed.
 
 Theorem std_noll_orthonormal :
   (forall p q, In p std_indices -> In q std_indices -> (gram norm2_std p q == delta p q)%Q) /\
   (forall p q, In p noll_indices -> In q noll_indices -> (gram norm2_noll p q == delta p q)%Q).
 Proof.
-  split; intros p q Hp Hq.
-  - pose proof gram_std as T. unfold gram_ok in T. rewrite forallb_forall in T. specialize (T _ Hp).
-    rewrite forallb_forall in T. apply Qeq_bool_eq, T, Hq.
-  - pose proof gram_noll as T. unfold gram_ok in T. rewrite forallb_forall in T. specialize (T _ Hp).
-    rewrite forallb_forall in T. apply Qeq_bool_eq, T, Hq.
+  split.
+  - apply gram_delta; [tauto|apply gram_std].
+  - apply gram_delta; [tauto|apply gram_noll].
 Qed.
 
 (** the squared normalisation constants of the model are the squares of the translated kernels *)
@@ -161,5 +184,5 @@ Proof.
 Qed.
 
 Example radial_example :
-  In (4, 0)%Z supported /\ (radial_coefs 4 0 = [(4, 6 / 1); (2, -6 / 1); (0, 1 / 1)])%Q%Z.
+  In (4, 0)%Z supported /\ radial_coefs 4 0 = [(4%Z, 6 # 1); (2%Z, -6 # 1); (0%Z, 1 # 1)].
 Proof. split; [vm_compute; tauto|]. vm_compute. reflexivity. Qed.
